@@ -527,6 +527,9 @@ def corpus():
     # UI to a listening connection socket: FRMR; double close
     H.append([('socket', 'A', 'dlc'), ('listen', 'A', 0, 1), ('socket', 'B', 'ldl'), ('sendto', 'B', 0, b'\x09', 32), ('pump', 'B'),
               ('pump', 'A'), ('close', 'A', 0), ('close', 'A', 0)])
+    # service discovery answers next to a large raw PDU in one aggregated frame (small MIU budget left for SDRES)
+    H.append([('resolve', 'B', VALID[k], k) for k in range(4)] + [('pump', 'B'), ('socket', 'A', 'raw'), ('bind', 'A', 0, ('a', 40)),
+             ('rawsend', 'A', 0, 'UI,33,40,' + '5a' * 225), ('pump', 'A'), ('pump', 'A'), ('pump', 'A')])
     # odd names
     h = []
     for k, n in enumerate(ODD + INVALID):
